@@ -2,7 +2,7 @@
    Only statements here; every proof is [exact lemma].  The model functions are the hand model of
    src/query/selector.rs (process_index, process_slice), generic over the Queryable instance. *)
 From Coq Require Import List ZArith.
-From JP Require Import Base Ast Eval Spec SliceFacts IndexFacts ValueModel.
+From JP Require Import Base Ast Eval Spec SliceFacts IndexFacts ValueModel Entry DataFacts SelFacts Build Purity FragParse FragBuild StringLevel.
 Import ListNotations.
 Open Scope Z_scope.
 
@@ -71,6 +71,36 @@ Theorem C11_slice_terminates : forall len start end_ step extra,
    down_loop (S (Z.to_nat len) + extra) upper lower e = down_loop (S (Z.to_nat len)) upper lower e).
 Proof. exact slice_loops_terminate. Qed.
 Print Assumptions C11_slice_terminates.
+
+(* string level, end to end: the TEXT `$[start:end:step]` -- any subset of the three parts, any integers of the
+   I-JSON range -- goes through the generated grammar (slice_selector tried before index_selector), parser.rs
+   (validate_range on each part) and process_slice, and returns exactly the elements at the index sequence of
+   RFC 9535 2.3.4.2.2, in that order (list equality), on every document; nothing on a non-array *)
+Theorem C11_string_level_slice : forall a b c (d : json),
+  oz_ok a -> oz_ok b -> oz_ok c -> wf_json d = true ->
+  exists ps,
+    api_with_path (36%N :: 91%N :: sel_text (FSlice a b c) ++ [93%N]) d = Some (map (fun p => (inner p, path p)) ps)
+    /\ map node_of ps = sel_slice a b c ([], d).
+Proof. exact slice_string_level. Qed.
+Print Assumptions C11_string_level_slice.
+
+(* the TEXT `$[i]`: element i, or len+i for negative i, nothing when out of range or on a non-array *)
+Theorem C11_string_level_index : forall i (d : json),
+  z_ok i -> wf_json d = true ->
+  exists ps,
+    api_with_path (36%N :: 91%N :: sel_text (FIndex i) ++ [93%N]) d = Some (map (fun p => (inner p, path p)) ps)
+    /\ map node_of ps = sel_index i ([], d).
+Proof. exact index_string_level. Qed.
+Print Assumptions C11_string_level_index.
+
+(* $[5:1:-2] and $[-2] on [0,1,2,3,4,5,6], through the string-level model *)
+Example C11_string_level_example :
+  let d := JArr (map (fun k => JNum (NInt k)) [0; 1; 2; 3; 4; 5; 6]) in
+  sel_text (FSlice (Some 5) (Some 1) (Some (-2))) = [53; 58; 49; 58; 45; 50]%N
+  /\ option_map (map fst) (api_with_path (36%N :: 91%N :: sel_text (FSlice (Some 5) (Some 1) (Some (-2))) ++ [93%N]) d)
+     = Some [JNum (NInt 5); JNum (NInt 3)]
+  /\ option_map (map fst) (api_with_path (36%N :: 91%N :: sel_text (FIndex (-2)) ++ [93%N]) d) = Some [JNum (NInt 5)].
+Proof. vm_compute. repeat split; reflexivity. Qed.
 
 (* non-vacuity and RFC 9535 table 9 / 2.3.4.3 examples on a 7-element array *)
 Example C11_rfc_examples :
